@@ -152,7 +152,10 @@ CapitalHop(t, p, i) ==
 
 (* ---- accesses from outside ---- *)
 ReadRoutes  == {"plus", "typeq", "uarg", "rhs", "rhsdef", "rhsset", "let", "star", "call"}
-WriteRoutes == {"infix", "prefix", "set", "infixdef", "hset"}
+(* multi1 / multi2: the dot path is one target of an infix assignment to    *)
+(* several targets, {d, x = v, 0} / {x, d = 0, v}                           *)
+MultiRoutes == {"multi1", "multi2"}
+WriteRoutes == {"infix", "prefix", "set", "infixdef", "hset"} \cup MultiRoutes
 AliasKinds  == {"direct", "def", "let", "param", "inpkgU", "inpkgl", "inhash", "inhash2"}
 
 IsErr(res) == res[1] \in {"err", "panic", "budget"}
@@ -192,7 +195,10 @@ ApplyOut(t, o) ==
         good == IF isw THEN o.res[1] = "val" ELSE Matches(o.res, ExpectRead(o.rt, w.node, o.v))
         wrote == isw /\ o.res[1] = "val" /\ w.vis \in {"yes", "any"}
     IN [ok |-> CASE w.vis = "undef" -> TRUE
-                 [] w.vis = "no"    -> IsErr(o.res)
+                 (* "can be neither read nor assigned": a refused access fails; an    *)
+                 (* assignment to several targets may also report success, as long as *)
+                 (* the member keeps its value (c = t, confirmed by the readback)     *)
+                 [] w.vis = "no"    -> IsErr(o.res) \/ (o.rt \in MultiRoutes /\ o.res[1] = "val")
                  [] w.vis = "yes"   -> good
                  [] OTHER           -> IsErr(o.res) \/ good,
         c  |-> IF wrote THEN SetAt(t, o.p, NewVal(o)) ELSE t,
@@ -200,6 +206,9 @@ ApplyOut(t, o) ==
 
 (* ---- code defined inside the package, called from outside ---- *)
 (* o = [pp, m, mode, key, v]: pp is the path of the package, m the member  *)
+(* (rd: by its plain name; rddot: through the dot path .m as the operand   *)
+(* of a builtin or the argument of a function; rdkey / wrkey: m.key        *)
+(* through a dot path, in every form the event's "form" names)             *)
 ApplyIn(t, o) ==
     LET pk == NodeAt(t, o.pp)
         owner == IF o.mode = "rdouter" THEN NodeAt(t, SubSeq(o.pp, 1, Len(o.pp) - 1)) ELSE pk
@@ -207,20 +216,86 @@ ApplyIn(t, o) ==
         mn == NodeAt(t, mp)
         def == pk[1] = "pkg" /\ owner[1] = "pkg" /\ mn # None
     IN IF ~def THEN [ok |-> TRUE, c |-> t]
-       ELSE CASE o.mode \in {"rd", "rdouter"} ->
+       ELSE CASE o.mode \in {"rd", "rdouter", "rddot"} ->
                    [ok |-> o.res[1] = "val" /\ o.res[2][1] = Abs(mn)[1] /\ o.res[2] = Abs(mn), c |-> t]
               [] o.mode = "wr" ->
                    [ok |-> o.res[1] = "val", c |-> IF o.res[1] = "val" THEN SetAt(t, mp, NewVal(o)) ELSE t]
               [] o.mode = "call" ->
                    [ok |-> mn[1] # "fn" \/ o.res = <<"val", <<"int", mn[2] + o.v>>>>, c |-> t]
+              (* the member is a hash or a nested package and the code of the      *)
+              (* package reads m.key through a dot path (operand of a builtin,     *)
+              (* argument of a function): full access to its own hash; the nested  *)
+              (* package is another package, whose private members stay private    *)
+              [] o.mode = "rdkey" ->
+                   LET kn == IF IsCont(mn) THEN NodeAt(mn, <<o.key>>) ELSE None IN
+                   IF kn = None THEN [ok |-> TRUE, c |-> t]
+                   ELSE IF mn[1] = "pkg" /\ kn[1] # "pkg" /\ Class(o.key) # "U"
+                   THEN [ok |-> Class(o.key) = "n" \/ IsErr(o.res), c |-> t]
+                   ELSE [ok |-> o.res[1] = "val" /\ o.res[2][1] = Abs(kn)[1] /\ o.res[2] = Abs(kn), c |-> t]
               [] o.mode = "wrkey" ->
                    IF mn[1] # "hash" \/ Idx(mn[2], o.key) = 0 THEN [ok |-> TRUE, c |-> t]
                    ELSE [ok |-> o.res[1] = "val",
                          c |-> IF o.res[1] = "val" THEN SetAt(t, Append(mp, o.key), NewVal(o)) ELSE t]
               [] OTHER -> [ok |-> FALSE, c |-> t]
 
-Apply(t, o) == IF o.op = "out" THEN ApplyOut(t, o)
-               ELSE LET a == ApplyIn(t, o) IN [ok |-> a.ok, c |-> a.c, vis |-> "in"]
+(* ---- a dot path written outside that travels as a VALUE into the package ---- *)
+(* A dot symbol is a value: outside code can hand the dot path it wrote to  *)
+(* code that runs inside a package -- as the argument of a function of the  *)
+(* package (called through a dot path, an alias, apply or map), as the      *)
+(* value its callback returns, or inside an array, a list or a hash.  It is *)
+(* still a dot path written outside the package, so the statement applies   *)
+(* to whatever it names there.  o = [fp, c, p, rt]: the code that receives  *)
+(* the dot path belongs to the package at fp; by the scoping of that        *)
+(* package the first name of the written path, p[c+1], is the member of the *)
+(* package at p[1..c] (fp itself or a package that textually encloses it);  *)
+(* the written path is p[c+1..], the member it names is the one at p.       *)
+(*   "no"   some hop of the written path is a value, function or hash       *)
+(*          member of a package under a name that starts with a lower-case  *)
+(*          letter: it must not be read;                                    *)
+(*   "any"  otherwise the statement is silent (outside the package the      *)
+(*          written path need not name anything at all): an error, or the   *)
+(*          member's value.                                                 *)
+ArgRoutes  == {"arg", "apply", "map"}
+DataRoutes == {"cblet", "cbtail", "cbdef", "cbplus", "cbarg", "first", "car", "hval"}
+
+LowerHop(t, p, i) ==
+    LET cont == NodeAt(t, SubSeq(p, 1, i - 1))
+        n == NodeAt(t, SubSeq(p, 1, i))
+    IN cont[1] = "pkg" /\ n[1] \in {"val", "fn", "hash"} /\ Class(p[i]) = "l"
+
+(* Stack.LookupSymbol searches the scopes of the cloned scope stack from    *)
+(* the innermost outwards: a name that the package does not define is found *)
+(* in a package that textually encloses it (the global scope is not         *)
+(* modelled: generated names never collide with global ones).  Returns the  *)
+(* path of the member found, or <<>>.                                       *)
+RECURSIVE Encl(_, _, _, _)
+Encl(t, cl, j, nm) ==
+    IF j < 0 THEN <<>>
+    ELSE LET a == NodeAt(t, SubSeq(cl, 1, j))
+         IN IF a[1] = "pkg" /\ Idx(a[2], nm) # 0 THEN Append(SubSeq(cl, 1, j), nm)
+            ELSE Encl(t, cl, j - 1, nm)
+
+RelDefined(t, o) ==
+    /\ o.c >= 0 /\ o.c < Len(o.p) /\ Len(o.fp) >= o.c
+    /\ SubSeq(o.fp, 1, o.c) = SubSeq(o.p, 1, o.c)
+    /\ \A i \in 1..Len(o.p) : NodeAt(t, SubSeq(o.p, 1, i)) # None
+    /\ NodeAt(t, SubSeq(o.p, 1, o.c))[1] = "pkg"
+    /\ NodeAt(t, o.fp)[1] = "pkg"
+    /\ Encl(t, o.fp, Len(o.fp), o.p[o.c + 1]) = SubSeq(o.p, 1, o.c + 1)
+
+RelVis(t, o) == IF ~RelDefined(t, o) THEN "undef"
+                ELSE IF \E i \in (o.c + 1)..Len(o.p) : LowerHop(t, o.p, i) THEN "no" ELSE "any"
+
+ApplyRel(t, o) ==
+    LET v == RelVis(t, o)
+    IN [ok |-> CASE v = "undef" -> TRUE
+                 [] v = "no"    -> IsErr(o.res)
+                 [] OTHER       -> IsErr(o.res) \/ Matches(o.res, Abs(NodeAt(t, o.p))),
+        c |-> t, vis |-> v]
+
+Apply(t, o) == CASE o.op = "out" -> ApplyOut(t, o)
+                 [] o.op = "rel" -> ApplyRel(t, o)
+                 [] OTHER -> LET a == ApplyIn(t, o) IN [ok |-> a.ok, c |-> a.c, vis |-> "in"]
 
 (***************************************************************************)
 (* PART 2: the walkers of the code.  A walker returns                      *)
@@ -237,18 +312,6 @@ Apply(t, o) == IF o.op = "out" THEN ApplyOut(t, o)
 IErr == [k |-> "err"]
 IsUp(nm) == Class(nm) = "U"
 From(tp, i) == SubSeq(tp, i, Len(tp))
-
-(* Stack.LookupSymbol searches the scopes of the cloned scope stack from    *)
-(* the innermost outwards: a name that the package does not define is found *)
-(* in a package that textually encloses it (the global scope is not         *)
-(* modelled: generated names never collide with global ones).  Returns the  *)
-(* path of the member found, or <<>>.                                       *)
-RECURSIVE Encl(_, _, _, _)
-Encl(t, cl, j, nm) ==
-    IF j < 0 THEN <<>>
-    ELSE LET a == NodeAt(t, SubSeq(cl, 1, j))
-         IN IF a[1] = "pkg" /\ Idx(a[2], nm) # 0 THEN Append(SubSeq(cl, 1, j), nm)
-            ELSE Encl(t, cl, j - 1, nm)
 
 (* x = [t, pre, set, D1, D2]: the tree, the path of the package the alias   *)
 (* is bound to, assignment?, the switches.  loc is the path (in t) of the   *)
@@ -341,4 +404,24 @@ ImplOut(t, o, D1, D2) ==
                  [] d.k = "set" -> o.res[1] = "val"
                  [] OTHER -> Matches(o.res, ExpectRead(o.rt, d.n, o.v)),
         c |-> d.c]
+(* A relative dot path resolved where the code of the package at o.fp runs  *)
+(* (dotGetSetHelper called while that code is the running function): the   *)
+(* first name is looked up in the scopes of that package without any       *)
+(* check, the rest is walked by the walkers above.  This is what code of   *)
+(* the package does with its own dot paths -- and the defect D3 when the   *)
+(* dot path was written outside and arrived as a value.                    *)
+ImplRel(t, o) ==
+    LET rel == From(o.p, o.c + 1)
+        up == Encl(t, o.fp, Len(o.fp), rel[1])
+        x == [t |-> t, pre |-> <<>>, set |-> FALSE, D1 |-> FALSE, D2 |-> FALSE]
+    IN IF up = <<>> THEN IErr
+       ELSE LET m == NodeAt(t, up) IN
+            IF Len(rel) = 1 THEN [k |-> "val", n |-> m, loc |-> up]
+            ELSE CASE m[1] = "pkg"  -> IStack(x, m, up, 0, rel, 2)
+                   [] m[1] = "hash" -> IHash(x, m, up, 0, rel, 2)
+                   [] OTHER -> IErr
+
+ImplRelOut(t, o) ==
+    LET d == ImplRel(t, o)
+    IN [ok |-> IF d.k = "err" THEN IsErr(o.res) ELSE Matches(o.res, Abs(d.n)), c |-> t]
 =============================================================================
